@@ -3,6 +3,7 @@ From Coq Require Import List NArith ZArith Bool Arith Lia.
 From NV Require Import GenConsts InputQueue.
 Import ListNotations.
 Local Open Scope nat_scope.
+Opaque IBUF ICMD REPSZ.
 
 Section Props.
 Variable K : Type.
@@ -17,12 +18,13 @@ Lemma term_read_stream (q : tq) :
   match stream q with
   | [] => term_read q = None
   | c :: r => exists q1, term_read q = Some (c, q1) /\ stream q1 = r /\ icmd q1 = rec_ (icmd q) c /\
-                          ibuf q1 = skipn 1 (ibuf q)
+                          ibuf q1 = skipn 1 (ibuf q) /\
+                          filled q1 = match ibuf q with [] => 1 | _ => filled q end
   end.
 Proof.
-  unfold stream, term_read. destruct q as [ib ti ic]; cbn [ibuf tin icmd]. destruct ib as [|c r]; cbn [app].
+  unfold stream, term_read, filled. destruct q as [us ib ti ic]; cbn [used ibuf tin icmd]. destruct ib as [|c r]; cbn [app].
   - destruct ti as [|c r]; [reflexivity|]. eexists. repeat split.
-  - eexists. repeat split.
+  - eexists. repeat split. cbn [length used ibuf]. lia.
 Qed.
 
 Lemma read_n_stream k : forall q : tq, stream (read_n k q) = skipn k (stream q) /\ ibuf (read_n k q) = skipn k (ibuf q).
@@ -31,7 +33,7 @@ Proof.
   pose proof (term_read_stream q) as H. destruct (stream q) as [|c r] eqn:E.
   - rewrite H. rewrite E. cbn. split; [reflexivity|].
     unfold stream in E. apply app_eq_nil in E. destruct E as [-> _]. reflexivity.
-  - destruct H as (q1 & -> & Hs & _ & Hi). destruct (IH q1) as [A B]. rewrite A, B, Hs, Hi. cbn [skipn].
+  - destruct H as (q1 & -> & Hs & _ & Hi & _). destruct (IH q1) as [A B]. rewrite A, B, Hs, Hi. cbn [skipn].
     split; [reflexivity|]. destruct (ibuf q); cbn [skipn]; [now rewrite skipn_nil|reflexivity].
 Qed.
 
@@ -46,13 +48,29 @@ Proof.
     apply IH; [congruence|]. rewrite Ia, Ib. now rewrite Hi.
 Qed.
 
+(* a state with fewer unread pushed keys and a less filled buffer keeps both after any number of reads *)
+Lemma read_n_room k : forall qa qb : tq, stream qa = stream qb ->
+  length (ibuf qb) <= length (ibuf qa) -> filled qb <= filled qa ->
+  filled (read_n k qb) <= filled (read_n k qa).
+Proof.
+  induction k as [|k IH]; intros qa qb Hs Hl Hf; cbn [read_n]; [exact Hf|].
+  pose proof (term_read_stream qa) as Ha. pose proof (term_read_stream qb) as Hb. rewrite <- Hs in Hb.
+  destruct (stream qa) as [|c r].
+  - now rewrite Ha, Hb.
+  - destruct Ha as (qa1 & -> & Sa & _ & Ia & Fa). destruct Hb as (qb1 & -> & Sb & _ & Ib & Fb).
+    apply IH; [congruence| |].
+    + rewrite Ia, Ib, !skipn_length. lia.
+    + rewrite Fa, Fb. destruct (ibuf qa) as [|x xa] eqn:Ea; destruct (ibuf qb) as [|y yb] eqn:Eb; cbn [length] in *; try lia.
+      unfold filled. rewrite Ea. cbn [length]. lia.
+Qed.
+
 (* the record holds exactly the keys read, as long as it has room *)
 Lemma read_n_icmd k : forall q : tq, length (icmd q) + k <= ICMD -> k <= length (stream q) ->
   icmd (read_n k q) = icmd q ++ firstn k (stream q).
 Proof.
   induction k as [|k IH]; intros q Hl Hk; cbn [read_n firstn]; [now rewrite app_nil_r|].
   pose proof (term_read_stream q) as H. destruct (stream q) as [|c r] eqn:E; [rewrite ?E in Hk; cbn in Hk; lia|].
-  rewrite ?E in Hk. destruct H as (q1 & -> & Hs & Hi & _). cbn [firstn].
+  rewrite ?E in Hk. destruct H as (q1 & -> & Hs & Hi & _ & _). cbn [firstn].
   assert (icmd q1 = icmd q ++ [c]) as Hi'.
   { rewrite Hi. unfold rec_. destruct (length (icmd q) <? ICMD) eqn:L; [reflexivity|]. apply Nat.ltb_ge in L. lia. }
   rewrite IH.
@@ -62,30 +80,35 @@ Proof.
 Qed.
 
 (* ---- pushes ---- *)
-Lemma term_push_fits (q : tq) s : length s <= IBUF - length (ibuf q) ->
-  ibuf (term_push q s) = s ++ ibuf q /\ tin (term_push q s) = tin q.
-Proof. intros H. unfold term_push. cbn. rewrite Nat.min_l by exact H. now rewrite firstn_all. Qed.
+Lemma term_push_fits (q : tq) s : length s <= IBUF - filled q ->
+  ibuf (term_push q s) = s ++ ibuf q /\ tin (term_push q s) = tin q /\ used (term_push q s) = used q.
+Proof. intros H. unfold term_push. cbn [ibuf tin used]. rewrite Nat.min_l by exact H. rewrite firstn_all. repeat split; reflexivity. Qed.
 
-Lemma push_n_fits n : forall (q : tq) s, n * length s <= IBUF - length (ibuf q) ->
-  ibuf (push_n n q s) = rpt n s ++ ibuf q /\ tin (push_n n q s) = tin q.
+Lemma rpt_comm n (s : list K) : rpt n s ++ s = s ++ rpt n s.
 Proof.
-  induction n as [|n IH]; intros q s H; cbn [push_n]; [now split|].
-  cbn [Nat.mul] in H. destruct (term_push_fits q s ltac:(lia)) as [A B].
-  destruct (IH (term_push q s) s) as [C D]; [rewrite A, app_length; lia|].
-  rewrite C, D, A, B. split; [|reflexivity]. unfold rpt. cbn [repeat concat].
-  rewrite <- app_assoc. f_equal.
-  clear. induction n; cbn; [now rewrite app_nil_r|]. rewrite <- app_assoc. now rewrite IHn.
+  unfold rpt. induction n as [|n IH]; cbn [repeat concat]; [now rewrite app_nil_r|].
+  rewrite <- app_assoc. now rewrite IH.
 Qed.
 
-(* the queue never holds more than its size: pushes are clipped to the room left *)
-Lemma term_push_capacity (q : tq) s : length (ibuf q) <= IBUF -> length (ibuf (term_push q s)) <= IBUF.
-Proof. intros H. unfold term_push. cbn. rewrite app_length, firstn_length. lia. Qed.
+Lemma push_n_fits n : forall (q : tq) s, n * length s <= IBUF - filled q ->
+  ibuf (push_n n q s) = rpt n s ++ ibuf q /\ tin (push_n n q s) = tin q /\ used (push_n n q s) = used q.
+Proof.
+  induction n as [|n IH]; intros q s H; cbn [push_n]; [now repeat split|].
+  cbn [Nat.mul] in H. destruct (term_push_fits q s ltac:(lia)) as (A & B & U).
+  destruct (IH (term_push q s) s) as (C & D & U2); [unfold filled in *; rewrite A, U, app_length; lia|].
+  rewrite C, D, A, B, U2, U. split; [|split; reflexivity].
+  rewrite app_assoc, rpt_comm. unfold rpt. cbn [repeat concat]. now rewrite <- app_assoc.
+Qed.
 
-Lemma term_push_clip (q : tq) s : length (ibuf q) <= IBUF ->
-  length (ibuf (term_push q s)) = Nat.min (length (ibuf q) + length s) IBUF.
-Proof. intros H. unfold term_push. cbn. rewrite app_length, firstn_length. lia. Qed.
+(* the buffer never holds more than its size: pushes are clipped to the room left (sizeof(ibuf) - ibuf_cnt) *)
+Lemma term_push_capacity (q : tq) s : filled q <= IBUF -> filled (term_push q s) <= IBUF.
+Proof. intros H. unfold term_push, filled in *. cbn [ibuf used]. rewrite app_length, firstn_length. lia. Qed.
 
-Lemma push_n_capacity n : forall (q : tq) s, length (ibuf q) <= IBUF -> length (ibuf (push_n n q s)) <= IBUF.
+Lemma term_push_clip (q : tq) s : filled q <= IBUF ->
+  filled (term_push q s) = Nat.min (filled q + length s) IBUF.
+Proof. intros H. unfold term_push, filled in *. cbn [ibuf used]. rewrite app_length, firstn_length. lia. Qed.
+
+Lemma push_n_capacity n : forall (q : tq) s, filled q <= IBUF -> filled (push_n n q s) <= IBUF.
 Proof. induction n; intros q s H; cbn [push_n]; [exact H|]. apply IHn. now apply term_push_capacity. Qed.
 
 (* ---- the loop ---- *)
@@ -98,57 +121,58 @@ Notation fits := (fits exec).
 Notation run := (run exec).
 
 Definition R (s1 s2 : st) : Prop :=
-  ed s1 = ed s2 /\ rep s1 = rep s2 /\ stream (q s1) = stream (q s2) /\ length (ibuf (q s2)) <= length (ibuf (q s1)).
+  ed s1 = ed s2 /\ rep s1 = rep s2 /\ stream (q s1) = stream (q s2) /\
+  length (ibuf (q s2)) <= length (ibuf (q s1)) /\ filled (q s2) <= filled (q s1).
 
 Lemma reset_stream (x : tq) : stream (snd (term_cmd x)) = stream x /\ icmd (snd (term_cmd x)) = [] /\
-  ibuf (snd (term_cmd x)) = ibuf x.
+  ibuf (snd (term_cmd x)) = ibuf x /\ filled (snd (term_cmd x)) = filled x.
 Proof. now destruct x. Qed.
 
 Lemma step_R s1 s2 : R s1 s2 -> fits s1 = true -> fits s2 = true /\ R (step s1) (step s2).
 Proof.
-  intros (He & Hr & Hs & Hl) Hf. unfold fits, step in *. rewrite <- He, <- Hs, <- Hr.
+  intros (He & Hr & Hs & Hl & Hfl) Hf. unfold InputQueue.fits, InputQueue.step in *. rewrite <- He, <- Hs, <- Hr.
   destruct (exec (ed s1) (stream (q s1))) as [[e1 k] a].
   set (x1 := read_n k (snd (term_cmd (q s1)))) in *. set (x2 := read_n k (snd (term_cmd (q s2)))).
-  destruct (reset_stream (q s1)) as (A1 & B1 & C1). destruct (reset_stream (q s2)) as (A2 & B2 & C2).
+  destruct (reset_stream (q s1)) as (A1 & B1 & C1 & D1). destruct (reset_stream (q s2)) as (A2 & B2 & C2 & D2).
   destruct (read_n_stream k (snd (term_cmd (q s1)))) as [S1 I1].
   destruct (read_n_stream k (snd (term_cmd (q s2)))) as [S2 I2]. fold x1 in S1, I1. fold x2 in S2, I2.
   assert (Hst : stream x1 = stream x2) by (rewrite S1, S2, A1, A2; now rewrite Hs).
   assert (Hic : icmd x1 = icmd x2) by (apply read_n_same; [now rewrite A1, A2|now rewrite B1, B2]).
   assert (Hlen : length (ibuf x2) <= length (ibuf x1)).
   { rewrite I1, I2, C1, C2. rewrite !skipn_length. lia. }
+  assert (Hfil : filled x2 <= filled x1).
+  { apply read_n_room; [now rewrite A1, A2|now rewrite C1, C2|now rewrite D1, D2]. }
+  assert (PUSH : forall b n, Nat.max 1 n * length b <= IBUF - filled x1 ->
+     Nat.max 1 n * length b <= IBUF - filled x2 /\
+     stream (push_n (Nat.max 1 n) x1 b) = stream (push_n (Nat.max 1 n) x2 b) /\
+     length (ibuf (push_n (Nat.max 1 n) x2 b)) <= length (ibuf (push_n (Nat.max 1 n) x1 b)) /\
+     filled (push_n (Nat.max 1 n) x2 b) <= filled (push_n (Nat.max 1 n) x1 b)).
+  { intros b n F1. assert (F2 : Nat.max 1 n * length b <= IBUF - filled x2) by lia. split; [exact F2|].
+    destruct (push_n_fits (Nat.max 1 n) x1 b F1) as (P1 & T1 & U1).
+    destruct (push_n_fits (Nat.max 1 n) x2 b F2) as (P2 & T2 & U2).
+    unfold stream, filled in *. rewrite P1, P2, T1, T2, U1, U2, <- !app_assoc, !app_length.
+    split; [now rewrite Hst|]. split; lia. }
   destruct a as [| |n|b n].
-  - split; [reflexivity|]. repeat split; cbn; auto.
-  - split; [reflexivity|]. repeat split; cbn; auto. now rewrite Hic, Hr.
-  - apply Nat.leb_le in Hf.
-    assert (F2 : Nat.max 1 n * length (rep s1) <= IBUF - length (ibuf x2)) by lia.
-    split; [now apply Nat.leb_le|].
-    destruct (push_n_fits (Nat.max 1 n) x1 (rep s1) Hf) as [P1 T1].
-    destruct (push_n_fits (Nat.max 1 n) x2 (rep s1) F2) as [P2 T2].
-    repeat split; cbn [ed rep q]; auto.
-    + unfold stream in *. rewrite P1, P2, T1, T2, <- !app_assoc. now rewrite Hst.
-    + rewrite P1, P2, !app_length. lia.
-  - apply Nat.leb_le in Hf.
-    assert (F2 : Nat.max 1 n * length b <= IBUF - length (ibuf x2)) by lia.
-    split; [now apply Nat.leb_le|].
-    destruct (push_n_fits (Nat.max 1 n) x1 b Hf) as [P1 T1].
-    destruct (push_n_fits (Nat.max 1 n) x2 b F2) as [P2 T2].
-    repeat split; cbn [ed rep q]; auto.
-    + unfold stream in *. rewrite P1, P2, T1, T2, <- !app_assoc. now rewrite Hst.
-    + rewrite P1, P2, !app_length. lia.
+  - split; [reflexivity|]. repeat split; cbn [ed rep q]; auto.
+  - split; [reflexivity|]. repeat split; cbn [ed rep q]; auto. now rewrite Hic, Hr.
+  - apply Nat.leb_le in Hf. destruct (PUSH (rep s1) n Hf) as (F2 & P1 & P2 & P3).
+    split; [now apply Nat.leb_le|]. repeat split; cbn [ed rep q]; auto.
+  - apply Nat.leb_le in Hf. destruct (PUSH b n Hf) as (F2 & P1 & P2 & P3).
+    split; [now apply Nat.leb_le|]. repeat split; cbn [ed rep q]; auto.
 Qed.
 
 Lemma run_R fuel : forall s1 s2 r, R s1 s2 -> run fuel s1 = Some r -> run fuel s2 = Some r.
 Proof.
-  induction fuel as [|f IH]; intros s1 s2 r HR; pose proof HR as (He & _ & Hs & _); cbn [InputQueue.run]; rewrite <- Hs.
+  induction fuel as [|f IH]; intros s1 s2 r HR; pose proof HR as (He & _ & Hs & _ & _); cbn [InputQueue.run]; rewrite <- Hs.
   - destruct (stream (q s1)); [now rewrite He|discriminate].
-  - destruct (stream (q s1)) eqn:E; [now rewrite He|].
+  - destruct (stream (q s1)) eqn:Es; [now rewrite He|].
     destruct (InputQueue.fits exec s1) eqn:F; [|discriminate].
     destruct (step_R s1 s2 HR F) as [F2 HR2]. rewrite F2. now apply IH.
 Qed.
 
 (* typed at the terminal in place of the keys just read *)
 Definition retyped (s : st) (e1 : E) (k : nat) (keys : list K) : st :=
-  {| q := {| ibuf := []; tin := keys ++ skipn k (stream (q s)); icmd := [] |}; rep := rep s; ed := e1 |}.
+  {| q := {| used := 0; ibuf := []; tin := keys ++ skipn k (stream (q s)); icmd := [] |}; rep := rep s; ed := e1 |}.
 
 Theorem dot_is_retyping s e1 k n fuel r :
   exec (ed s) (stream (q s)) = (e1, k, ADot n) -> fits s = true ->
@@ -156,10 +180,10 @@ Theorem dot_is_retyping s e1 k n fuel r :
 Proof.
   intros Hx Hf. apply run_R. unfold InputQueue.fits, InputQueue.step in *. rewrite Hx in *.
   apply Nat.leb_le in Hf. set (x := read_n k (snd (term_cmd (q s)))) in *.
-  destruct (push_n_fits (Nat.max 1 n) x (rep s) Hf) as [P T].
+  destruct (push_n_fits (Nat.max 1 n) x (rep s) Hf) as (P & T & _).
   destruct (read_n_stream k (snd (term_cmd (q s)))) as [S _]. fold x in S.
   destruct (reset_stream (q s)) as (A & _ & _).
-  repeat split; cbn [ed rep q retyped ibuf tin length]; [|lia].
+  unfold R, filled. cbn [ed rep q retyped ibuf tin used length]. repeat split; try lia.
   unfold stream in *. cbn [ibuf tin app]. rewrite P, T, <- app_assoc. f_equal. now rewrite S, A.
 Qed.
 
@@ -169,24 +193,24 @@ Theorem exec_is_typing s e1 k b n fuel r :
 Proof.
   intros Hx Hf. apply run_R. unfold InputQueue.fits, InputQueue.step in *. rewrite Hx in *.
   apply Nat.leb_le in Hf. set (x := read_n k (snd (term_cmd (q s)))) in *.
-  destruct (push_n_fits (Nat.max 1 n) x b Hf) as [P T].
+  destruct (push_n_fits (Nat.max 1 n) x b Hf) as (P & T & _).
   destruct (read_n_stream k (snd (term_cmd (q s)))) as [S _]. fold x in S.
   destruct (reset_stream (q s)) as (A & _ & _).
-  repeat split; cbn [ed rep q retyped ibuf tin length]; [|lia].
+  unfold R, filled. cbn [ed rep q retyped ibuf tin used length]. repeat split; try lia.
   unfold stream in *. cbn [ibuf tin app]. rewrite P, T, <- app_assoc. f_equal. now rewrite S, A.
 Qed.
 
 (* the queue discipline is invisible: a state and its flattening (everything typed at the terminal) end alike *)
 Theorem queue_is_stream s fuel r : run fuel s = Some r ->
-  run fuel {| q := {| ibuf := []; tin := stream (q s); icmd := [] |}; rep := rep s; ed := ed s |} = Some r.
-Proof. apply run_R. repeat split; cbn; [now rewrite app_nil_r|lia]. Qed.
+  run fuel {| q := {| used := 0; ibuf := []; tin := stream (q s); icmd := [] |}; rep := rep s; ed := ed s |} = Some r.
+Proof. apply run_R. unfold R, stream, filled. cbn [q ibuf tin used ed rep app length]. repeat split; lia. Qed.
 
 Theorem record_faithful s e1 k :
   exec (ed s) (stream (q s)) = (e1, k, AChange) -> k <= length (stream (q s)) -> S k < REPSZ -> k <= ICMD ->
   rep (step s) = firstn k (stream (q s)) /\ ed (step s) = e1 /\ stream (q (step s)) = skipn k (stream (q s)).
 Proof.
   intros Hx Hk Hr Hi. unfold InputQueue.step. rewrite Hx.
-  destruct (reset_stream (q s)) as (A & B & _).
+  destruct (reset_stream (q s)) as (A & B & _ & _).
   pose proof (read_n_icmd k (snd (term_cmd (q s)))) as H. rewrite A, B in H. cbn [length app] in H.
   specialize (H ltac:(lia) Hk). cbn [rep ed q]. rewrite H.
   destruct (read_n_stream k (snd (term_cmd (q s)))) as [S1 _]. rewrite A in S1.
@@ -201,5 +225,5 @@ Theorem append_push_refuted :
   exists (qq : tq nat) (s : list nat),
     stream (term_push_append qq s) <> s ++ stream qq /\ stream (term_push qq s) = s ++ stream qq.
 Proof.
-  exists {| ibuf := [1]; tin := [2]; icmd := [] |}, [7]. cbn. split; [discriminate|reflexivity].
+  exists {| used := 0; ibuf := [1]; tin := [2]; icmd := [] |}, [7]. vm_compute. split; [discriminate|reflexivity].
 Qed.
